@@ -111,20 +111,22 @@ Fixpoint check_all (law : st -> ev -> st -> outcome -> bool) (s : st) (h : list 
   end.
 
 (* quiescent laws with attribution to the known classes: the excuses collected so far *)
-Fixpoint check_exc (exc_of : st -> ev -> list positive) (law : list positive -> st -> bool)
+Fixpoint check_exc (exc_of : st -> ev -> list positive) (prune : list positive -> st -> list positive)
+         (law : list positive -> st -> bool)
          (exc : list positive) (s : st) (h : list ev) (obs : list (outcome * st)) : bool :=
   match h, obs with
   | [], [] => true
   | e :: h', (o, s') :: obs' =>
       let exc' := exc_of s e ++ exc in
-      law exc' s' && check_exc exc_of law exc' s' h' obs'
+      law exc' s' && check_exc exc_of prune law (prune exc' s') s' h' obs'
   | _, _ => false
   end.
 
-Definition law_entry_exc (exc_of : st -> ev -> list positive) (law : list positive -> st -> bool) (toks : list Z) : list Z :=
+Definition law_entry_exc (exc_of : st -> ev -> list positive) (prune : list positive -> st -> list positive)
+           (law : list positive -> st -> bool) (toks : list Z) : list Z :=
   match run_dec (let* mx := dZ in let* s := dSt mx in let* h := dList dEvent in
                  let* obs := dObs mx (length h) in ret (s, h, obs)) toks with
-  | Some (s, h, obs) => eBool (check_exc exc_of law [] s h obs)
+  | Some (s, h, obs) => eBool (check_exc exc_of prune law [] s h obs)
   | None => bad_input
   end.
 
@@ -137,7 +139,7 @@ Definition law_entry (law : st -> ev -> st -> outcome -> bool) (toks : list Z) :
 
 Definition entry (sel : Z) (toks : list Z) : list Z :=
   match sel with
-  | 1 | 2 | 3 | 4 => match run_dec dInput toks with
+  | 1 | 2 | 3 | 4 | 5 => match run_dec dInput toks with
          | Some (s, h) => trace s h 1
          | None => bad_input end
   | 101 => law_entry (fun s e s' _ => law_only_by_request s e s') toks
@@ -160,9 +162,9 @@ Definition entry (sel : Z) (toks : list Z) : list Z :=
   | 131 => law_entry (fun s e s' _ => law_closed_only_when_really_empty s e s') toks
   | 132 => law_entry law_close_with_real_pgs toks
   (* quiescent end states (selector 4) *)
-  | 141 => law_entry_exc exc_stuck law_stuck_X toks       (* unsigned: any other stuck child *)
-  | 142 => law_entry_exc exc_open law_openchild_X toks     (* unsigned: any other open child under a closed parent *)
-  | 143 => law_entry_exc exc_stuck law_stuck_Y toks       (* signed: the known class *)
-  | 144 => law_entry_exc exc_open law_openchild_Y toks     (* signed: the known class *)
+  | 141 => law_entry_exc exc_stuck prune_stuck law_stuck_X toks       (* unsigned: any other stuck child *)
+  | 142 => law_entry_exc exc_open prune_open law_openchild_X toks     (* unsigned: any other open child under a closed parent *)
+  | 143 => law_entry_exc exc_stuck prune_stuck law_stuck_Y toks       (* signed: the known class *)
+  | 144 => law_entry_exc exc_open prune_open law_openchild_Y toks     (* signed: the known class *)
   | _ => bad_input
   end.
